@@ -16,7 +16,7 @@ class Deps:
             cmd += ["--features", ",".join(features)]
         cmd += vlib.cargo_extra()
         with vlib.Lock("cargo"):
-            p = vlib.run(cmd, cwd=vlib.HARNESS, env={"CARGO_NET_OFFLINE": "true", "RUSTFLAGS": "-Awarnings"})
+            p = vlib.run(cmd, cwd=vlib.HARNESS, env={"CARGO_NET_OFFLINE": "true", "RUSTFLAGS": vlib.rustflags()})
         if p.returncode != 0:
             raise vlib.ToolError("cargo build (program deps) failed:\n" + p.stderr[-5000:])
         self.externs = {}
@@ -41,6 +41,7 @@ class Deps:
                "--error-format=json", "-L", "dependency=" + self.depdir]
         for k, v in self.externs.items():
             cmd += ["--extern", "%s=%s" % (k, v)]
+        if vlib.COV: cmd += ["-C", "instrument-coverage"]
         return cmd + list(extra) + [src, "-o", out]
 
     def compile(self, src, out, extra=()):
